@@ -50,7 +50,7 @@ PROPS = {
         level="proof",
         rule="string/bytes codecs on valid, invalid (every class of RFC 3629 violation at random positions) and random byte strings; BincodeCodec<T> for 9 Rust types (String, u64, Vec<u8>, tuple, Vec<String>, Option<String>, struct, enum, nested) on valid encodings, truncations, bit flips, adversarial lengths, trailing bytes; "
              "compression round trip for every algorithm x mode x level (gzip/zlib 0-9+presets, zstd 10 levels+presets, lz4, brotli generic/text/font 0-11+presets) x 7 payload classes (empty, tiny, incompressible, repetitive, text, periodic, 64k random; thorough adds 1 MiB); "
-             "distinct = distinct case lines; the compression cases are TESTING of the hypothesis Compressor.Lossless, not proof",
+             "cmp: the composition used on the wire (encode, batch, compress / decompress, unbatch, decode) for batches of every shape incl. only-empty items; e2esub: a library subscriber fed arbitrary frames by a raw publisher - the values it yields are those of decompress / unbatch / decode computed in the harness, also after an undecodable message on the same stream; distinct = distinct case lines; the compression cases are TESTING of the hypothesis Compressor.Lossless, not proof",
         trusted_base=COMMON_TRUST + [
             "flate2, zstd, brotli, lz4_flex invert themselves (hypothesis Compressor.Lossless; tested per algorithm/mode/level/payload class, not proved); for DEFLATE the hypothesis is reduced to flate2's per-format inverse (structure Flate) by c14_deflate_lossless_partial over the library match arms extracted into Gen/Compression.lean",
             "translator extraction of standard/src/compression/*: which encoder/decoder type each library arm names, that encoders are finished/flushed before their bytes are taken, that decoders read to the end (token-level, Gen/Compression.lean)",
@@ -113,7 +113,7 @@ PROPS = {
         module="SeliumModel.Props.C08",
         suites=["fanout", "pubsub", "reqrep", "regbig"],
         level="proof",
-        rule="same suites as C01 with fault scripts at every (child, operation, position); monitors: only a child that answered Err is dropped, every healthy sink is called exactly once per operation and keeps its items, no panic; (request/reply half: see reqrep suite once claimed)",
+        rule="same suites as C01 with fault scripts at every (child, operation, position); monitors: only a child that answered Err is dropped, every healthy sink is called exactly once per operation and keeps its items, no panic; reqrep: the request/reply router with fault scripts, monitor: a socket is dropped only for a cause of its own; regbig: frames around the limit through the real codec and routers (a refused frame leaves nothing behind in the replier's sink), a subscriber that vanishes without a word behind a cut UDP relay is given up after the configured idle time and the other subscriber gets everything",
         trusted_base=COMMON_TRUST + [
             "futures::channel::mpsc Receiver: FIFO; Ready(Some) while queued, Ready(None) once closed and drained (re-pollable), Pending otherwise and then holds the waker; send/close_channel fire it",
             "tokio_stream::StreamMap::poll_next as modelled exactly in Route/StreamMap.lean (random start given by the observed poll order)",
@@ -155,7 +155,7 @@ PROPS = {
         module="SeliumModel.Props.C02",
         suites=["reqrep", "regbig"],
         level="proof",
-        rule="reqrep: the real reqrep::Topic (and through it sink::Router) in a guarded child process (a poll that never returns is observed as a hang) under the wake-driven executor, around scripted requestor / replier sockets; hand-written scenarios for one-sided states, slow requestors with several replies, racing late repliers, unexpected frame kinds, failing replier sinks, forged / missing / malformed / unknown cid, shutdown, plus seeded random histories; every child call, poll result and waker holder compared with the Lean model (HashMap / StreamMap order taken from the observed run); monitors reconstruct the exchange from the mocks' logs; distinct = distinct case lines, trivial = scenarios without any socket",
+        rule="reqrep: the real reqrep::Topic (and through it sink::Router) in a guarded child process (a poll that never returns is observed as a hang) under the wake-driven executor, around scripted requestor / replier sockets; hand-written scenarios for one-sided states, slow requestors with several replies, racing late repliers, unexpected frame kinds, failing replier sinks, forged / missing / malformed / unknown cid, shutdown, plus seeded random histories; every child call, poll result and waker holder compared with the Lean model (HashMap / StreamMap order taken from the observed run); monitors reconstruct the exchange from the mocks' logs; regbig: raw requestors and a raw replier through a real server and the real codec - requests at and around the frame limit (also those that outgrow it once tagged) and frames pipelined with the registration: the next request is answered; distinct = distinct case lines, trivial = scenarios without any socket",
         trusted_base=COMMON_TRUST + [
             "futures::channel::mpsc Receiver, tokio_stream::StreamMap, std HashMap iteration (any order), Sink/Stream waker contract as for C01",
             "modelled by hand: sink::Router (sink/router.rs), reqrep::Topic::poll (topic/reqrep.rs)",
@@ -194,7 +194,7 @@ PROPS = {
         module="SeliumModel.Props.C03",
         suites=["e2epub", "pubsub", "codec"],
         level="proof",
-        rule="a real Publisher and Subscriber (client library) through an in-process selium server over loopback QUIC with certificates generated at run time by the bundled generator: codec (String/Bytes/Bincode) x compression (none, gzip, zlib, zstd, lz4, brotli) x batching (off; sizes 1,3,4,100 with a 60 s interval; size 3 with 0 ms and 5 ms intervals) x item counts 0,1,size-1,size,size+1,2*size+1; plus isolated-process cases for extreme batch sizes / intervals (0, u32::MAX, u64::MAX ms, Duration::MAX), payloads at the frame limit, batches larger than the limit before and after compression, a subscriber that only starts reading after more than a stream window has been published; a send() that returns an error does not end a case (the item was not accepted); the indices of the items the subscriber yields and of the refused sends are compared with the Lean model (frame limit included); pubsub: the router suite of C01 (forwarding is part of end-to-end fidelity) of the publisher/subscriber pipeline; distinct = distinct case lines, trivial = 0 items",
+        rule="a real Publisher and Subscriber (client library) through an in-process selium server over loopback QUIC with certificates generated at run time by the bundled generator: codec (String/Bytes/Bincode) x compression (none, gzip, zlib, zstd, lz4, brotli) x batching (off; sizes 1,3,4,100 with a 60 s interval; size 3 with 0 ms and 5 ms intervals) x item counts 0,1,size-1,size,size+1,2*size+1; plus isolated-process cases for extreme batch sizes / intervals (0, u32::MAX, u64::MAX ms, Duration::MAX), payloads at the frame limit, batches larger than the limit before and after compression, a subscriber that only starts reading after more than a stream window has been published; a send() that returns an error does not end a case (the item was not accepted); the indices of the items the subscriber yields and of the refused sends are compared with the Lean model (frame limit included); pubsub: the router suite of C01 (forwarding is part of end-to-end fidelity) of the publisher/subscriber pipeline; ppdup: a publisher duplicated before its first send / with a partial batch / after a framed batch / unbatched; codec: the hypotheses of the theorem (lossless codecs and compressors) on the real codecs and libraries, see C14; distinct = distinct case lines, trivial = 0 items",
         trusted_base=COMMON_TRUST + [
             "quinn / rustls / tokio transport; the server forwards frames in order (C01)",
             "compressors invert themselves (Compressor.Lossless; tested in C14)",
@@ -246,7 +246,7 @@ PROPS = {
         module="SeliumModel.Props.C12",
         suites=["e2erec", "e2ereq", "backoff"],
         level="proof",
-        rule="library publisher / subscriber / replier / requestor over loopback QUIC; the harness cuts the client's QUIC connection with the verif-hooks method (1, 3, 4 and 6 successive outages against budgets of 1-3 attempts, i.e. more outages than one budget) and checks after each outage that traffic sent after recovery is carried; exhaustion: the server is replaced by an impostor with another CA so that every attempt fails, the stream must report too-many-retries; outcomes compared with the Lean retry model; distinct = distinct case lines",
+        rule="library publisher / subscriber / replier / requestor over loopback QUIC; the harness cuts the client's QUIC connection with the verif-hooks method (1, 3, 4 and 6 successive outages against budgets of 1-3 attempts, i.e. more outages than one budget) and checks after each outage that traffic sent after recovery is carried; exhaustion: the server is replaced by an impostor with another CA so that every attempt fails, the stream must report too-many-retries; outcomes compared with the Lean retry model; a connection lost again between a re-registration and its answer (scripted peer), a replier alone on its topic, a backoff delay longer than the request timeout, siblings on one shared connection; backoff: every configuration's schedule has exactly max_attempts items (all setter orders, saturating delays, caps); distinct = distinct case lines",
         trusted_base=COMMON_TRUST + [
             "quinn reconnect, TLS, re-registration on the server: exercised end to end, not proved",
             "translator: scope of the backoff iterator in listen()/request()/on_disconnect, poll_replies in on_reconnect, the arms of is_recoverable_error",
